@@ -146,7 +146,7 @@ def parse_template(path):
                 rest = m.group(2)
                 # path ends at first opt token; opts are known keywords
                 toks = split_opts(rest)
-                optkw = ("addgenerics(", "sigsubst(", "bound(", "attr(", "ret(", "mono(", "nogenerics", "nowhere", "keepvis", "keepattrs", "desugar(",
+                optkw = ("fragment(", "addgenerics(", "sigsubst(", "bound(", "attr(", "ret(", "mono(", "nogenerics", "nowhere", "keepvis", "keepattrs", "desugar(",
                          "trusted", "rename(", "nobody", "novis")
                 ptoks, otoks = [], []
                 for t in toks:
@@ -329,6 +329,16 @@ def assemble_item(d, info, src, srcfile_label, log):
             sig_a, sig_b = it["sig"]
             m = re.search(rb"\bfn\s+(" + re.escape(it["name"].encode()) + rb")\b", src[sig_a:sig_b])
             add(sig_a + m.start(1), sig_a + m.end(1), d.optarg("rename"), "RENAME")
+        for o in d.opts:
+            if o.startswith("fragment("):
+                # FRAGMENT: keep the first K top-level statements, replace the rest of the body by the given text
+                # (a call to a prelude stub whose `requires` is the contract at the cut). The dropped statements are logged.
+                k_, rep_ = o[9:-1].split("=>", 1)
+                k_ = int(k_)
+                st = it.get("stmts", [])
+                if k_ >= len(st) or k_ < 1:
+                    raise Undecided(f"{d.path}: fragment({k_}): function has {len(st)} statements -- anchor lost")
+                add(st[k_][0], it["body_close"], rep_.strip() + "\n", "FRAGMENT")
         for o in d.opts:
             if o.startswith("addgenerics("):
                 # generic parameters of the dropped impl header are moved onto the function (IMPL_HEADER rule)
